@@ -224,7 +224,12 @@ def ob_read_int():
             return V.Sym('text', pattern=pat)
         scan = V.Sym('scan', match=match)
         return it.call_function(f, node, (scan,), {}), asked
-    for pr in V.explore(run, interp_factory=lambda: V.Interp(contracts={int: c_int})):
+    outside = None
+    try:
+        paths = list(V.explore(run, interp_factory=lambda: V.Interp(contracts={int: c_int})))
+    except Exception as e:          # the function left the interpretable subset (e.g. after a refactoring): undecided here, the value contract below still decides
+        paths = []; outside = f'{type(e).__name__}: {e}'
+    for pr in paths:
         npaths += 1
         if pr.outcome != 'return':
             bad.append({'outcome': pr.outcome, 'value': repr(pr.value)}); continue
@@ -241,18 +246,61 @@ def ob_read_int():
     det = {'formula': 'read_int_token tries hex, oct, bin, dec in this order and returns IntToken(int(text matched, base of that alternative))', 'paths': npaths,
            'functions': ['hidc.lexer.readers.read_int_token']}
     if bad: det.update(model=bad[:4], replay=replay_ints())
-    out = [Result('C12/read_int_token/base-per-alternative', FAILED if bad else DISCHARGED, 'pyvc', time.time() - t0, (), det)]
+    if outside:
+        det['message'] = 'read_int_token is outside the interpretable subset: ' + outside
+    out = [Result('C12/read_int_token/base-per-alternative', UNDECIDED if outside else (FAILED if bad else DISCHARGED), 'pyvc', time.time() - t0, (), det)]
+    # value contract by enumeration: every string up to length 5 over the literal alphabet -- the longest prefix that is a literal of the documented
+    # grammar (most specific alternative first) is consumed and denotes its documented value
+    import itertools as _it, re as _re
+    t0 = time.time(); bad = []; n = 0
+    ref = [(_re.compile(r'0x(?:[0-9a-fA-F]_?)*[0-9a-fA-F]'), 16, 2), (_re.compile(r'0o(?:[0-7]_?)*[0-7]'), 8, 2), (_re.compile(r'0b(?:[01]_?)*[01]'), 2, 2),
+           (_re.compile(r'(?:[0-9]_?)*[0-9]'), 10, 0)]
+    def ref_value(text):
+        for pat, base, skip in ref:
+            m = pat.match(text)
+            if m:
+                digits = m.group()[skip:].replace('_', '')
+                v = 0
+                for ch in digits: v = v * base + '0123456789abcdef'.index(ch.lower())
+                return v, m.end()
+        return None, 0
+    alphabet = '0179afAxob_'
+    for L in range(1, 6):
+        for tup in _it.product(alphabet, repeat=L):
+            text = ''.join(tup); n += 1
+            want, end = ref_value(text)
+            sc = scan_of(text + ' ')
+            try:
+                tok = readers.read_int_token(sc)
+                got = (None if tok is None else tok.data, sc.col if tok is not None else 0)
+            except Exception as e:
+                got = (repr(e), None)
+            if got != (want, end):
+                bad.append({'text': text, 'value_and_length': got, 'documented': (want, end)})
+                if len(bad) > 5: break
+        if len(bad) > 5: break
+    d2 = {'formula': 'for every string over the literal alphabet: the literal read is the longest prefix of the most specific base alternative and denotes its documented value',
+          'domain': n, 'bound': 'strings up to length 5 over 0 1 7 9 a f A x o b _', 'functions': ['hidc.lexer.readers.read_int_token']}
+    if bad: d2.update(model=bad[:5], replay={'reproduced': True, 'how': 'real read_int_token on the text', 'observed': bad[0]})
+    out.append(Result('C12/read_int_token/values-of-all-short-literals', BOUNDED_FAILED if bad else BOUNDED_OK, 'bounded:enum', time.time() - t0, (), d2))
     # AXIOM int(text, base): Python's int() accepts exactly the documented digits/separators of that base with the 0x/0o/0b prefix: enum over samples of each pattern's language
     t0 = time.time(); bad = []
     samples = {'0x1F': 31, '0xdead_BEEF': 0xdeadbeef, '0o17': 15, '0o1_7': 15, '0b101': 5, '0b1_0': 2, '1_000': 1000, '007': 7, '0': 0, '0x0': 0, '0b0': 0,
                '9_9': 99, '0xA_b': 171, '18446744073709551616': 2 ** 64}
+    def rd(sc):
+        try:
+            return readers.read_int_token(sc)
+        except Exception as e:
+            return Raised(repr(e))
+    class Raised:
+        def __init__(self, why): self.data = why
     for s, v in samples.items():
         sc = scan_of(s + ' ')
-        tok = readers.read_int_token(sc)
+        tok = rd(sc)
         if tok is None or tok.data != v or sc.col != len(s): bad.append({'literal': s, 'value': getattr(tok, 'data', None), 'documented': v, 'col': sc.col})
     for s, (v, c) in {'0x': (0, 1), '0b2': (0, 1), '0o8': (0, 1), '1__0': (1, 1), '1_': (1, 1), '0x_1': (0, 1), '08': (8, 2)}.items():
         sc = scan_of(s + ' ')
-        tok = readers.read_int_token(sc)
+        tok = rd(sc)
         if tok is None or tok.data != v or sc.col != c: bad.append({'literal': s, 'value': getattr(tok, 'data', None), 'consumed': sc.col, 'documented': f'{v} consuming {c}'})
     out.append(res('C12/read_int_token/sample-values', bad, t0, 'documented values of sample literals in every base incl. separators, and where malformed literals stop', ['hidc.lexer.readers.read_int_token'],
                    domain=len(samples) + 7))
